@@ -285,7 +285,9 @@ def run(ctx, res):
     z = {nm: bytes(sz) for nm, sz in U.REGION_SIZES}
     for v_ in (0, 1, 8, 255):
         for c_ in (b'x=1 y=1 x=1 y=1 x=1 y=1 x=1 y=1\n', b'--\x00\nx=1', b':c:', b':c:\x00', b'--:c:\n', b':c:x=1', b'\x00', b'-- a\x00b\x00',
-                   b'--' + incompressible(rng, 40) + b'\x00', b'x=":c:"', b':c:\n'):
+                   b'--' + incompressible(rng, 40) + b'\x00', b'x=":c:"', b':c:\n',
+                   # the magic at the very END of text stored uncompressed (the zero padding follows it directly), and in the middle
+                   b'--:c:', b'x=1 --:c:', b'-- :c:\x00 :c:', b'--' + incompressible(rng, 30) + b':c:', b'--:c::c:'):
             check_cart(ctx, res, c_, z, v_, None, 'cart', batch, blank)
     # .p8 -> .p8.png -> .p8 through the file layer (existing destination keeps its label picture)
     from pico8.game import file as gfile
